@@ -212,6 +212,7 @@ class World:
         self.hooks = P(params, "hooks", True)
         self.rclass_obj = P(params, "rclass_obj", False)
         self.fault = None  # set by fault-plan harnesses
+        self.none_class = {}
         self.callno = 0
         self.hook_calls = {}
         self.place = None
@@ -266,6 +267,8 @@ class World:
                 if raw is None:
                     raw = w.dur(f"raw{j}", lo=None)
             w.t(("strategy", which, w.n, ctxinfo, raw, rk))
+            if w.timed and P(w.p, "strat_time", False):  # a strategy that itself takes time
+                w.clock.now = w.now + w.dur(f"sd{j}")
             f = w.fault
             if f is not None and f.get("site") == "strategy" and f.get("at") in (None, j):
                 w.t(("hook_raises", "strategy"))
@@ -293,7 +296,7 @@ class World:
         pre = f"c{self.callno}" if self.callno else ""
         kind = self.choice(f"{pre}o{i}", self.kinds)
         klass = None
-        if kind in ("exc", "res"):
+        if kind in ("exc", "res", "resnone"):
             klass = self.choice(f"{pre}k{i}", self.classes)
         self.script[i] = (kind, klass)
         return (kind, klass)
@@ -314,6 +317,10 @@ class World:
             obj = Res(i, klass)
             self.objs[i] = (kind, obj, klass)
             return obj
+        if kind == "resnone":  # the operation returns None and the result classifier flags None as a failure
+            self.none_class[i] = klass
+            self.objs[i] = ("res", None, klass)
+            return None
         if kind == "exc":
             obj = fail_type(i)(i, klass)
         elif kind == "abort_exc":
@@ -369,19 +376,19 @@ class World:
     def _retry_after(self, obj):
         ra = P(self.p, "retry_after", False)
         if ra == "const":
-            return 1.5 + obj.i
+            return 1.5 + getattr(obj, "i", self.n)
         if ra and self.sym.bool(f"has_ra{obj.i}"):
             return self.sym.real(f"ra{obj.i}", lo=0)
         return None
 
     def result_classifier(self, r):
-        k = getattr(r, "klass", None)
+        k = self.none_class.get(self.n) if r is None else getattr(r, "klass", None)
         self.t(("rclassify", getattr(r, "i", None), k))
         if k is None:
             return None
         if self.rclass_obj:
             c = Classification(klass=k, retry_after_s=self._retry_after(r))
-            self.classifications[r.i] = c
+            self.classifications[getattr(r, "i", self.n)] = c
             return c
         return k
 
@@ -484,7 +491,7 @@ class World:
     def retry_kwargs(self):
         kw = dict(
             classifier=self.classifier,
-            result_classifier=self.result_classifier if "res" in self.kinds else None,
+            result_classifier=self.result_classifier if ("res" in self.kinds or "resnone" in self.kinds) else None,
             strategy=self.default_strategy,
             strategies=dict(self.strat_table),
             deadline_s=self.deadline,
